@@ -1,5 +1,7 @@
 # Copyright (C) 2019 Anaconda, Inc
 # SPDX-License-Identifier: BSD-3-Clause
+import sys
+
 from conda_content_trust import cli
 
-cli.cli()
+sys.exit(cli.cli())
